@@ -2,28 +2,28 @@
    PARTIAL (see C01.v for the reason): decision rules + facts about how the
    recorded dependency set is maintained. *)
 From Coq Require Import ZArith List.
-From Redo Require Import Base.Bytes Build.Model Build.LocalProofs Build.FailProofs Build.CleanProofs.
+From Redo Require Import Base.Bytes Build.Model Build.LocalProofs Build.FailProofs Build.CleanProofs Build.CleanDb.
 
-Theorem C02_never_built_runs : forall fuel runid w c f r mx seen,
+Theorem C02_never_built_runs : forall fuel runid cyc w c f r mx seen,
   existsb (Nat.eqb f) seen = false ->
   r_changed r = None ->
-  is_dirty (S fuel) runid w c f r mx seen = Ret (VDirty, w, c, []).
+  is_dirty (S fuel) runid cyc w c f r mx seen = Ret (VDirty, w, c, []).
 Proof. exact is_dirty_never_built. Qed.
-Check C02_never_built_runs : forall fuel runid w c f r mx seen,
+Check C02_never_built_runs : forall fuel runid cyc w c f r mx seen,
   existsb (Nat.eqb f) seen = false ->
   r_changed r = None ->
-  is_dirty (S fuel) runid w c f r mx seen = Ret (VDirty, w, c, []).
+  is_dirty (S fuel) runid cyc w c f r mx seen = Ret (VDirty, w, c, []).
 Print Assumptions C02_never_built_runs.
 
-Theorem C02_failed_runs : forall fuel runid w c f r mx seen,
+Theorem C02_failed_runs : forall fuel runid cyc w c f r mx seen,
   existsb (Nat.eqb f) seen = false ->
   r_failed r <> None ->
-  is_dirty (S fuel) runid w c f r mx seen = Ret (VDirty, w, c, []).
+  is_dirty (S fuel) runid cyc w c f r mx seen = Ret (VDirty, w, c, []).
 Proof. exact is_dirty_failed. Qed.
-Check C02_failed_runs : forall fuel runid w c f r mx seen,
+Check C02_failed_runs : forall fuel runid cyc w c f r mx seen,
   existsb (Nat.eqb f) seen = false ->
   r_failed r <> None ->
-  is_dirty (S fuel) runid w c f r mx seen = Ret (VDirty, w, c, []).
+  is_dirty (S fuel) runid cyc w c f r mx seen = Ret (VDirty, w, c, []).
 Print Assumptions C02_failed_runs.
 
 (* over the whole walk: a recorded Modified dependency that failed, was never
@@ -31,16 +31,16 @@ Print Assumptions C02_failed_runs.
    built or verified makes the target not clean -- wherever it stands in the
    dependency list and whatever the other rows say (every database, fuel,
    callback; [r] is the copy of the target's row that the check judges) *)
-Theorem C02_moved_on_dep_not_clean : forall fuel runid w c f r mx seen v w' c' evs chg,
-  is_dirty fuel runid w c f r mx seen = Ret (v, w', c', evs) ->
+Theorem C02_moved_on_dep_not_clean : forall fuel runid cyc w c f r mx seen v w' c' evs chg,
+  is_dirty fuel runid cyc w c f r mx seen = Ret (v, w', c', evs) ->
   chk_is_checked c runid r f = false ->
   r_changed r = Some chg ->
   (exists d, In d (deps_of (dbs w) r f) /\ d_mode d = DModified /\
      moved_on (Z.max chg match r_checked r with Some k => k | None => 0%Z end) (load runid (dbs w) (d_source d))) ->
   v <> VClean.
 Proof. exact moved_on_dep_not_clean. Qed.
-Check C02_moved_on_dep_not_clean : forall fuel runid w c f r mx seen v w' c' evs chg,
-  is_dirty fuel runid w c f r mx seen = Ret (v, w', c', evs) ->
+Check C02_moved_on_dep_not_clean : forall fuel runid cyc w c f r mx seen v w' c' evs chg,
+  is_dirty fuel runid cyc w c f r mx seen = Ret (v, w', c', evs) ->
   chk_is_checked c runid r f = false ->
   r_changed r = Some chg ->
   (exists d, In d (deps_of (dbs w) r f) /\ d_mode d = DModified /\
@@ -51,11 +51,11 @@ Check C02_moved_on_dep_not_clean : forall fuel runid w c f r mx seen v w' c' evs
 Print Assumptions C02_moved_on_dep_not_clean.
 
 (* deciding dirtiness has no effect on any file *)
-Theorem C02_check_no_file_effect : forall fuel runid w c f r mx seen v w' c' evs,
-  is_dirty fuel runid w c f r mx seen = Ret (v, w', c', evs) -> fs w' = fs w.
+Theorem C02_check_no_file_effect : forall fuel runid cyc w c f r mx seen v w' c' evs,
+  is_dirty fuel runid cyc w c f r mx seen = Ret (v, w', c', evs) -> fs w' = fs w.
 Proof. exact is_dirty_fs. Qed.
-Check C02_check_no_file_effect : forall fuel runid w c f r mx seen v w' c' evs,
-  is_dirty fuel runid w c f r mx seen = Ret (v, w', c', evs) -> fs w' = fs w.
+Check C02_check_no_file_effect : forall fuel runid cyc w c f r mx seen v w' c' evs,
+  is_dirty fuel runid cyc w c f r mx seen = Ret (v, w', c', evs) -> fs w' = fs w.
 Print Assumptions C02_check_no_file_effect.
 
 Definition C02_full_statement : Prop :=
@@ -91,12 +91,12 @@ Proof. vm_compute. reflexivity. Qed.
 Theorem C02_quiet_is_clean : forall runid w rk S fuel g l,
   forallb (quiet_row_b runid w rk S) S = true -> In g S -> (rk g < fuel)%nat ->
   (forall chg, r_changed (ld runid w g) = Some chg -> (chg <= runid)%Z) ->
-  exists l' evs, is_dirty fuel runid w (ChkMem l) g (ld runid w g) runid nil = Ret (VClean, w, ChkMem l', evs).
+  exists l' evs, is_dirty fuel runid nil w (ChkMem l) g (ld runid w g) runid nil = Ret (VClean, w, ChkMem l', evs).
 Proof. exact quiet_b_all_clean. Qed.
 Check C02_quiet_is_clean : forall runid w rk S fuel g l,
   forallb (quiet_row_b runid w rk S) S = true -> In g S -> (rk g < fuel)%nat ->
   (forall chg, r_changed (ld runid w g) = Some chg -> (chg <= runid)%Z) ->
-  exists l' evs, is_dirty fuel runid w (ChkMem l) g (ld runid w g) runid nil = Ret (VClean, w, ChkMem l', evs).
+  exists l' evs, is_dirty fuel runid nil w (ChkMem l) g (ld runid w g) runid nil = Ret (VClean, w, ChkMem l', evs).
 Print Assumptions C02_quiet_is_clean.
 
 (* non-vacuity: the state the model reaches by building T <- {m*, s}, m* <- s
@@ -112,6 +112,53 @@ Example C02_quiet_example :
   let rid := 1000000002%Z in
   let S := (2 :: 3 :: 4 :: 5 :: 6 :: nil)%nat in
   forallb (quiet_row_b rid w (fun g => (50 - g)%nat) S) S = true
-  /\ match is_dirty 60 rid w (ChkMem nil) 2%nat (ld rid w 2%nat) rid nil with
+  /\ match is_dirty 60 rid nil w (ChkMem nil) 2%nat (ld rid w 2%nat) rid nil with
      | Ret (VClean, _, _, _) => True | _ => False end.
 Proof. vm_compute. split; [reflexivity|exact I]. Qed.
+
+(* ---- the same at the level of WHOLE COMMANDS, for the builder itself (its
+   walk writes checked_runid into the database and judges every row on a copy
+   taken when the parent's walk started): on a quiet set S that does not contain
+   //ALWAYS, `redo-ifchange ts` of members of S exits 0, starts no script and
+   touches no file -- and so does every later one, n times for every n, with a
+   fresh run id each time.  Premises are boolean and evaluated below on a state
+   the model reaches by a real build. *)
+Theorem C02_repeated_builds_run_nothing : forall rk S k ts n w,
+  let R := (maxrun (dbs w) + 1)%Z in
+  forallb (quiet_row_b R w rk S) S = true ->
+  forallb (settled_b R w) S = true ->
+  forallb (requested_b rk S w) ts = true ->
+  Forall (noop_result w) (repeat_exec n (CIfChange k ts) w).
+Proof. exact quiet_forever_b. Qed.
+Check C02_repeated_builds_run_nothing : forall rk S k ts n w,
+  let R := (maxrun (dbs w) + 1)%Z in
+  forallb (quiet_row_b R w rk S) S = true ->
+  forallb (settled_b R w) S = true ->
+  forallb (requested_b rk S w) ts = true ->
+  Forall (fun x => fs (fst x) = fs w /\ exists evs, snd x = OutBuild evs 0%Z /\ Forall quiet_ev evs)
+         (repeat_exec n (CIfChange k ts) w).
+Print Assumptions C02_repeated_builds_run_nothing.
+
+(* one command, with what it leaves behind *)
+Theorem C02_quiet_command_noop : forall rk Q k ts w,
+  let R := (maxrun (dbs w) + 1)%Z in
+  QUIET R rk Q w -> requested rk Q (default_fuel w - 1) w ts ->
+  exists w' evs, exec (CIfChange k ts) w = (w', OutBuild evs 0%Z)
+    /\ fs w' = fs w /\ Forall quiet_ev evs /\ QUIET R rk Q w'
+    /\ Protect.names (dbs w') = Protect.names (dbs w) /\ deps (dbs w') = deps (dbs w) /\ maxrun (dbs w') = R.
+Proof. exact quiet_ifchange_noop. Qed.
+Print Assumptions C02_quiet_command_noop.
+
+Example C02_repeated_example :
+  let mk deps stamp p := {| s_deps := deps; s_ifcreate := (119%N :: nil) :: nil; s_always := false; s_stamp := stamp;
+                            s_out := OStdout; s_payload := p; s_cat := true; s_exit := 0%Z; s_tol := false |} in
+  let T := (84 :: nil)%N in let m := (109 :: nil)%N in let s := (115 :: nil)%N in
+  let h := SWrite s (1%N :: nil) :: SWriteDo (T ++ b_do) (mk (m :: s :: nil) false 10%N)
+           :: SWriteDo (m ++ b_do) (mk (s :: nil) true 20%N) :: SCmd (CIfChange false (T :: nil)) :: nil in
+  let w := fst (last (run_history h (init_world 0)) (init_world 0, None)) in
+  let R := (maxrun (dbs w) + 1)%Z in
+  let S := (2 :: 3 :: 4 :: 5 :: 6 :: nil)%nat in
+  let rk := fun g => (20 - g)%nat in
+  forallb (quiet_row_b R w rk S) S = true /\ forallb (settled_b R w) S = true
+  /\ forallb (requested_b rk S w) (T :: m :: nil) = true.
+Proof. vm_compute. repeat split. Qed.
